@@ -158,11 +158,12 @@ def scope_allconst_empty(case):
     for tm in case.doc['tms']:
         if case.tables.get(tm['source']) == [] and tm['subject']['kind'] == 'constant':
             sg = tm['subject'].get('graphs', [])
-            if tm['subject'].get('classes') and all(g['kind'] == 'constant' for g in sg):
+            # every graph map yields its own rule: one constant graph map (or none at all) makes an all-constant rule
+            if tm['subject'].get('classes') and (not sg or any(g['kind'] == 'constant' for g in sg)):
                 return True
             for pom in tm['poms']:
                 gs = sg + pom.get('graphs', [])
-                if all(g['kind'] == 'constant' for g in gs) and any(p['kind'] == 'constant' for p in pom['predicates']) \
+                if (not gs or any(g['kind'] == 'constant' for g in gs)) and any(p['kind'] == 'constant' for p in pom['predicates']) \
                         and any((not o.get('parent')) and o['kind'] == 'constant' for o in pom['objects']):
                     return True
     return False
